@@ -1093,7 +1093,8 @@ class Exp(UnaryOperator):
     """
 
     def term(self, time="t"):
-        return "np.exp("+self.element.term(time)+")"
+        # (1.0*: a comparison yields a Python bool, and numpy computes functions of a bool in half precision)
+        return "np.exp(1.0*("+self.element.term(time)+"))"
 
 
 class DT(Function):
@@ -1350,7 +1351,7 @@ class Sin(Function):
     def __init__(self, x):
         self.x = x
 
-    def term(self, time="t"): return "( np.sin({}) )".format(
+    def term(self, time="t"): return "( np.sin(1.0*({})) )".format(
         extractTerm(self.x, time))
 
 
@@ -1358,7 +1359,7 @@ class Tan(Function):
     def __init__(self, x):
         self.x = x
 
-    def term(self, time="t"): return "( np.tan({}) )".format(
+    def term(self, time="t"): return "( np.tan(1.0*({})) )".format(
         extractTerm(self.x, time))
 
 
@@ -1366,7 +1367,7 @@ class Cos(Function):
     def __init__(self, x):
         self.x = x
 
-    def term(self, time="t"): return "( np.cos({}) )".format(
+    def term(self, time="t"): return "( np.cos(1.0*({})) )".format(
         extractTerm(self.x, time))
 
 
@@ -1374,7 +1375,7 @@ class Arccos(Function):
     def __init__(self, x):
         self.x = x
 
-    def term(self, time="t"): return "( np.arccos({}) )".format(
+    def term(self, time="t"): return "( np.arccos(1.0*({})) )".format(
         extractTerm(self.x, time))
 
 
@@ -1382,7 +1383,7 @@ class Arctan(Function):
     def __init__(self, x):
         self.x = x
 
-    def term(self, time="t"): return "( np.arctan({}) )".format(
+    def term(self, time="t"): return "( np.arctan(1.0*({})) )".format(
         extractTerm(self.x, time))
 
 
@@ -1390,7 +1391,7 @@ class Arcsin(Function):
     def __init__(self, x):
         self.x = x
 
-    def term(self, time="t"): return "( np.arcsin({}) )".format(
+    def term(self, time="t"): return "( np.arcsin(1.0*({})) )".format(
         extractTerm(self.x, time))
 
 
